@@ -165,7 +165,10 @@ func keepCompatibleEndpoints(endpoints []*domain.Endpoint, profile *domain.Reque
 // filterModelsByProvider ensures model listings only show what's actually available
 // on the requested provider type (e.g., /olla/ollama/models won't show LM Studio models)
 func (a *Application) filterModelsByProvider(ctx context.Context, models []*domain.UnifiedModel, providerType string) ([]*domain.UnifiedModel, error) {
-	endpoints, err := a.repository.GetAll(ctx)
+	// A model counts for this provider only through an endpoint that is both of the provider's
+	// kind and currently healthy: a model that an offline provider endpoint shares with a healthy
+	// endpoint of another kind cannot be served under this prefix.
+	endpoints, err := a.repository.GetHealthy(ctx)
 	if err != nil {
 		return nil, fmt.Errorf("failed to get endpoints: %w", err)
 	}
